@@ -4,6 +4,7 @@ CONSTANTS
  Clients = {1, 2}
  Creators = {1}
  Subscribers = {2}
+ OtherType = {}
  MaxOps = 2
  MaxSends = 3
  MaxServes = 2
